@@ -1,7 +1,7 @@
 #!/usr/bin/env bash
 # usage: tools/verify_seed.sh <out-dir under /tmp/seed> <worktree id e.g. C04> <seeded dir name> <checks...>
 # Copies the deliverables, re-verifies tests + demo.rs in the agent's worktree (patch applied there), then runs our checks.
-out=/tmp/seed/$1; wt=/tmp/seed/wt-$2; name=$3; shift 3
+root=${SEEDROOT:-/tmp/seed}; out=$root/$1; wt=$root/wt-$2; name=$3; shift 3
 cd "$(dirname "$0")/.."
 d=seeded/$name; mkdir -p $d
 cp $out/patch.diff $out/meta.json $d/; [ -f $out/demo.rs ] && cp $out/demo.rs $d/
